@@ -53,6 +53,9 @@ type cell [NRel]uint8
 func call(f func() bool) (r uint8) {
 	defer func() {
 		if x := recover(); x != nil {
+			if os.Getenv("C08_DEBUG_PANIC") != "" {
+				fmt.Fprintln(os.Stderr, "panic:", x)
+			}
 			r = 2
 		}
 	}()
